@@ -487,9 +487,11 @@ class CircuitOperation(ops.Operation):
             args += f'param_resolver={proper_repr(self.param_resolver)},\n'
         if self.parent_path:
             args += f'parent_path={proper_repr(self.parent_path)},\n'
-        if self.use_repetition_ids:
-            # Default repetition_ids need not be specified.
+        if self.repetition_ids is not None:
             args += f'repetition_ids={proper_repr(self.repetition_ids)},\n'
+        if self.use_repetition_ids != (self.repetition_ids is not None):
+            # (not what the constructor derives from the repetition ids)
+            args += f'use_repetition_ids={self.use_repetition_ids},\n'
         if self.repeat_until:
             args += f'repeat_until={self.repeat_until!r},\n'
         indented_args = args.replace('\n', '\n    ')
